@@ -392,6 +392,12 @@ func (sp *ServerPool) collectMetrics(spCtx *serverPoolContext) {
 
 	// Now, the body must be a CallbackReader.
 	body, _ := spCtx.stdResp.Body.(*readers.CallbackReader)
+	if body == nil {
+		// the body has been wrapped (compression), so there is no hook to
+		// learn its final size.
+		collect()
+		return
+	}
 
 	// Collect when reach EOF or meet an error.
 	body.OnAfter(func(total int, p []byte, err error) {
